@@ -23,12 +23,12 @@ NORETURN = ('abort', '__assert_fail', 'exit', '_exit', '__assert', '__assert_per
 
 
 class Path:
-    __slots__ = ('events', 'env', 'assume', 'labels_seen', 'fresh')
+    __slots__ = ('events', 'env', 'assume', 'labels_seen', 'fresh', 'site_gen')
     def __init__(self):
-        self.events = []; self.env = {}; self.assume = {}; self.labels_seen = (); self.fresh = 0
+        self.events = []; self.env = {}; self.assume = {}; self.labels_seen = (); self.fresh = 0; self.site_gen = {}
     def copy(self):
         p = Path(); p.events = list(self.events); p.env = dict(self.env); p.assume = dict(self.assume)
-        p.labels_seen = self.labels_seen; p.fresh = self.fresh
+        p.labels_seen = self.labels_seen; p.fresh = self.fresh; p.site_gen = dict(self.site_gen)
         return p
     # ---- queries
     def conds(self): return [(e[1], e[2]) for e in self.events if e[0] == 'cond']
@@ -147,7 +147,7 @@ class Engine:
             nm = callee_name(n)
             args = tuple(self.render(a, p) for a in n['inner'][1:])
             if nm is None: nm = self._indirect_name(n)
-            sym = self.call_ids[n['id']]
+            sym = self.call_ids[n['id']] + "'" * p.site_gen.get(n['id'], 0)
             p.events.append(('call', nm, args, sym, n))
             for a in args:                      # an object whose address is passed may be written by the callee
                 if a.startswith('&'):
@@ -342,21 +342,30 @@ class Engine:
         out = []
         tag = f'L{loc_of(st)[1]}'
         havoc_vars = self.assigned_in(st)
+        call_sites = [m['id'] for m in walk(st) if m.get('kind') == 'CallExpr']
         def exit_(r):
             return nxt(r)
-        def after_iter(r):
+        def after_iter(r, depth=0):
             r = r.copy()
             if inc is not None and inc.get('kind'): self.render(inc, r)
             r.events.append(('loop', tag + ':backedge', st))
             r.fresh += 1
-            for v in havoc_vars: r.env[v] = f'{v}@{tag}'
+            for cid in call_sites: r.site_gen[cid] = r.site_gen.get(cid, 0) + 1     # a later iteration's calls are new values
+            for v in havoc_vars: r.env[v] = f'{v}@{tag}' + ("'" * depth)
             r.assume = {a: t for a, t in r.assume.items() if not any(_mentions(a, v) for v in havoc_vars)}
-            # leave the loop: the condition is now false
+            # after the first (precise) iteration: either leave, or run one more *generic* iteration from the
+            # havocked loop head (covers returns/breaks taken in any later iteration), then leave
+            res = []
             if cond is not None and cond.get('kind'):
-                res = []
                 for s_, t in self.cond_paths(cond, r):
                     if not t: res += exit_(s_)
+                    elif depth == 0:
+                        s_.events.append(('loop', tag + ':again', st))
+                        res += self.run([body], s_, lambda x: after_iter(x, 1), labels, exit_, lambda x: after_iter(x, 1))
                 return res
+            if depth == 0:
+                r.events.append(('loop', tag + ':again', st))
+                return self.run([body], r, lambda x: after_iter(x, 1), labels, exit_, lambda x: after_iter(x, 1))
             return []          # for(;;) leaves only through break/return
         def iterate(r):
             return self.run([body], r, after_iter, labels, exit_, after_iter)
@@ -437,6 +446,8 @@ def _boolean_valued(n):
     return (k == 'BinaryOperator' and n.get('opcode') in ('&&', '||', '==', '!=', '<', '>', '<=', '>=')) or (k == 'UnaryOperator' and n.get('opcode') == '!')
 
 def _fold(op, a, b):
+    if a == b and op in ('==', '<=', '>='): return '1'
+    if a == b and op in ('!=', '<', '>'): return '0'
     if _is_int(a) and _is_int(b):
         x, y = int(a), int(b)
         try:
